@@ -16,7 +16,7 @@ static const char* DECLS =
     "void g_s(const S& p) {}\n void g_r(const Rec& p) {}\n void g_arr(const int& p[3]) {}\n";
 
 // operand pool: per operand class of the property, identifiers, constants and small expressions of that type
-static const char* OPERANDS[11][4] = {
+static const char* OPERANDS[12][4] = {
     /* 0 int          */ {"i", "mi", "i + 1", "ci"},
     /* 1 bounded int  */ {"bi", "bk", nullptr, nullptr},
     /* 2 bool         */ {"b", "true", "i < j", "mb"},
@@ -27,8 +27,9 @@ static const char* OPERANDS[11][4] = {
     /* 7 struct       */ {"r", "q", "cr", nullptr},
     /* 8 array        */ {"arr", "arr4", nullptr, nullptr},
     /* 9 channel      */ {"c", "bc", nullptr, nullptr},
-    /* 10 string      */ {"\"str\"", nullptr, nullptr, nullptr}};
-static const int NCLS = 11;
+    /* 10 string      */ {"\"str\"", nullptr, nullptr, nullptr},
+    /* 11 clock constraint */ {"x < 5", "x == 2", "x - y == 1", "x == 2 && y >= 1"}};
+static const int NCLS = 12;
 static int nforms(int c) { int n = 0; while (n < 4 && OPERANDS[c][n]) n++; return n; }
 static const char* COMM[] = {"+", "*", "==", "!=", "&&", "||", "&", "|", "^", "<?", ">?"};
 static const int NCOMM = sizeof COMM / sizeof COMM[0];
@@ -52,7 +53,7 @@ static Verdict check(Ctx& cx, const std::string& text)
     return {ok, ok ? base_kind(e.get_type()) : -1};
 }
 
-extern "C" void harness_commutative()  /* vf: bounds=26_operand_forms_in_11_classes,unordered_pairs,x_11_commutative_operators;both_orders_through_lexer,grammar,builder,checkExpression */
+extern "C" void harness_commutative()  /* vf: bounds=33_operand_forms_in_12_classes(incl._clock_constraints_of_invariant_and_guard_kind),unordered_pairs,x_11_commutative_operators;both_orders_through_lexer,grammar,builder,checkExpression */
 {
     Ctx cx;
     vf_assert(cx.declare(DECLS) == 0, "declarations-accepted");
@@ -68,7 +69,7 @@ extern "C" void harness_commutative()  /* vf: bounds=26_operand_forms_in_11_clas
     vf_reach("end");
 }
 
-extern "C" void harness_inline_if()  /* vf: bounds=26_operand_forms_in_11_classes,unordered_pairs;c?a:b_vs_!c?b:a */
+extern "C" void harness_inline_if()  /* vf: bounds=33_operand_forms_in_12_classes(incl._clock_constraints_of_invariant_and_guard_kind),unordered_pairs;c?a:b_vs_!c?b:a */
 {
     Ctx cx;
     vf_assert(cx.declare(DECLS) == 0, "declarations-accepted");
